@@ -138,6 +138,26 @@ def reactor_trace(r, label, truth=None, user=-1):
            'user': L(usr) if usr else [0, 0],
            'cap': L(0.01)}
     ev = []
+    # the requirement of every un-rodded region against the limit of that
+    # region's own coolant update (self weight of every node >= 0), read off
+    # the real update by unit perturbations at both ends of the temperature
+    # range
+    from . import opprobe as _op
+    for ai, a in enumerate(r.assemblies):
+        for ri, reg in enumerate(a.region):
+            if reg.is_rodded:
+                continue
+            code = float(dassh.region_unrodded.calculate_min_dz(
+                reg, r.inlet_temp, a._estimated_T_out, r._is_adiabatic)[0])
+            tl = float('inf')
+            dzp = max(min(float(r.req_dz), code), 1e-6)
+            for T in (float(r.inlet_temp), float(a._estimated_T_out)):
+                tr_ = _op.probe_unrodded(dassh, reg, dzp, T, 'x',
+                                         adiabatic=r._is_adiabatic)
+                lim = [e for e in tr_['ev'] if e['e'] == 'Limit'][0]
+                tl = min(tl, lim['trueLimit'])
+            ev.append({'e': 'RegionLimit', 'a': ai + 1, 'r': ri,
+                       'code': _op.qlen(code), 'true': int(tl)})
     # the gap's entry against the limit of the gap update itself: the largest
     # step that keeps the self weight of every gap cell non-negative, read
     # off the real update by unit perturbations (three temperatures of the
